@@ -219,6 +219,8 @@ def maps_rules(ctx, P="C03"):
         if b and b["val"][0] == "node":
             src = fv.term(b["val"][1])
             src_ok = set_t is not None and contains(src, lambda s: s == set_t)
+    if ordered_set and set_t is not None and vec_t == set_t:
+        src_ok = True      # the ordered set itself is traversed: ascending order by construction
     ctx.check(P + ".K3", "kmer_pos_maps:sorted", (sorted_before or ordered_set) and src_ok,
               "vector from the canonical set is sorted before ranks are assigned",
               "the vector enumerated for ranks is not (provably) the sorted canonical set: sorted=%s, "
